@@ -312,6 +312,18 @@ def lookup_of(fn, param):
     for n in fn.nodes():
         if n.get("k") == "Var" and n.get("init") is not None and _is_pool_find(n["init"], keyname=param):
             return n["d"]
+    # `const PoolIterator it(_find_chunk(address))` with `static PoolIterator _find_chunk(void* a) { return _pool.find(a); }`
+    for n in fn.nodes():
+        if n.get("k") == "Var" and n.get("init") is not None:
+            i = L.unwrap(n["init"])
+            while i.get("k") in ("Construct", "TempObj") and len(i.get("a", [])) == 1:
+                i = L.unwrap(i["a"][0])
+            if i.get("k") in ("Call", "MCall") and i.get("cdecl") is not None and len(i.get("a") or []) == 1 and L.unwrap(i["a"][0]).get("n") == param:
+                g = next((f for f in fn.facts.functions if f.d.get("decl") == i["cdecl"] and f.body is not None), None)
+                if g is not None and len(g.params) == 1 and not g.d.get("virtual"):
+                    stm = [x for x in (g.body.get("s", []) if g.body.get("k") == "Block" else [g.body]) if x.get("k") != "Null_"]
+                    if len(stm) == 1 and stm[0].get("k") == "Return" and stm[0].get("e") is not None and _is_pool_find(stm[0]["e"], keydecl=g.params[0]["d"]):
+                        return n["d"]
     for n in fn.nodes():
         if n.get("k") in ("Call", "MCall"):
             h = lookup_helper(fn, n)
